@@ -1,20 +1,26 @@
 #define KF_EXCL_C12_number_ctor_uninit 1
 #include "C12_value.cpp"
-extern "C" void h_p1() {   // Value from empty Array&&, destroy
-    { V t{AT()};
-    vf_assert(t.Size() == 0, 1); }
+extern "C" void h_p1() {
+    u64 x = vf_u64();
+    { V v;
+    v["a"] = x;
+    v["b"] = nullptr;
+    vf_assert(v.Size() == 2, 1);
+    V *p = v.GetValue("a", 1);
+    vf_assert(p != nullptr && p->GetUInt64() == x, 2);
+    const ST k("b", 1);
+    v.Remove(k);
+    vf_assert(v.GetValue("b", 1) == nullptr, 3); }
     vf_witness();
 }
-extern "C" void h_p2() {   // move that into an Array<V>
-    { AT arr;
-      V t{AT()};
-      arr += Memory::Move(t);
-    vf_assert(arr.Size() == 1, 1); }
-    vf_witness();
-}
-extern "C" void h_p3() {   // Value array += Value{AT()}
-    { V v(T::Array);
-      v += V{AT()};
-    vf_assert(v.Size() == 1, 1); }
+extern "C" void h_p2() {
+    u64 x = vf_u64();
+    { V v;
+    v["a"] = x;
+    v["b"] = nullptr;
+    V c(v);
+    v["ab"] = true;
+    vf_assert(c.Size() == 2 && v.Size() == 3, 1);
+    }
     vf_witness();
 }
